@@ -134,7 +134,7 @@ func C17Cleanup() {
 
 func c17Gen(tier string, emit func(c17Case)) {
 	for _, h := range []string{"StaticDir", "StaticFS", "StaticFiles", "StaticFile"} {
-		for _, rel := range []string{"pub", "./pub", "pub/", "../site2/pub", ".//pub"} {
+		for _, rel := range []string{"pub", "./pub", "pub/", "../site2/pub", ".//pub", "./../site2/pub"} {
 			for _, sc := range []string{"two-mounts", "chdir-between-routers", "chdir-same-router", "root-created-later", "grouped-mounts-same-prefix"} {
 				emit(c17Case{Handler: h, Prefix: "/assets", Rel: rel, Scenario: sc, Depth: 2})
 			}
@@ -199,7 +199,8 @@ func c17RunRel(c c17Case, st *fw.Stats, add func(sig, msg string)) {
 		case "StaticFiles":
 			r.StaticFiles(prefix, root, "css|js")
 		case "StaticFile":
-			r.StaticFile(prefix, filepath.Join(root, "a.css"))
+			// (the file path is spelled by plain concatenation: "./pub/a.css", "./../site2/pub/a.css" reach the library as they are)
+			r.StaticFile(prefix, strings.TrimSuffix(root, "/")+"/a.css")
 		}
 	}
 	get := func(r *rux.Router, p string) *httptest.ResponseRecorder {
@@ -507,7 +508,7 @@ func c17Run(c c17Case, st *fw.Stats) []fw.Viol {
 var c17Spec = fw.Spec[c17Case]{
 	ID:    "C17",
 	Level: "model_checking",
-	Rule: "complete enumeration: all request paths of <=3 (thorough 4) tokens over 36 tokens {.., ., empty, sub, a.txt, b.css, SECRET.txt, rootx, %2e%2e, ..%2f, %2f, \\, %5c.., %00, 'a.txt.', '.../', s.css, ..%5c, c.js, e.scss, m.mjs, acss, x.css.bak, dir.js, inner.md, 'a.txt;.css', 'd.md;x.js', 'a.txt%3B.css', ';', names with a long s / in upper case where the extension list says js / css} after each mount prefix, sent with URL.RawPath = the raw string and URL.Path = its decoding, for StaticDir / StaticFS(http.Dir) / StaticFiles(css|js) / StaticFile x prefixes {/d, /deep/d, /root (= the directory's own name)} x both UseEncodedPath settings (and with a global path variable named like the handlers' internal variable; and with the mount and a second mount of the sibling directory inside nested groups with 2+1 / 3+1 / 1+1 middleware, requested alternately; and with a second StaticFiles mount on the SAME prefix serving another root with another extension list, registered before / after), against a real sandbox tree with marked files outside the root (parent directory, name-prefix sibling 'rootx'); plus relative roots in 5 spellings x 4 handlers x 5 arrangements (other mounts whose directory names differ by leading dots / slashes; another router or another mount registered while the process worked in a directory of the same layout; the root created only after the mount was registered; two groups mounting under the same prefix argument with different roots, the other one requested first) probed with all paths of <=2 tokens over 12 tokens; " +
+	Rule: "complete enumeration: all request paths of <=3 (thorough 4) tokens over 36 tokens {.., ., empty, sub, a.txt, b.css, SECRET.txt, rootx, %2e%2e, ..%2f, %2f, \\, %5c.., %00, 'a.txt.', '.../', s.css, ..%5c, c.js, e.scss, m.mjs, acss, x.css.bak, dir.js, inner.md, 'a.txt;.css', 'd.md;x.js', 'a.txt%3B.css', ';', names with a long s / in upper case where the extension list says js / css} after each mount prefix, sent with URL.RawPath = the raw string and URL.Path = its decoding, for StaticDir / StaticFS(http.Dir) / StaticFiles(css|js) / StaticFile x prefixes {/d, /deep/d, /root (= the directory's own name)} x both UseEncodedPath settings (and with a global path variable named like the handlers' internal variable; and with the mount and a second mount of the sibling directory inside nested groups with 2+1 / 3+1 / 1+1 middleware, requested alternately; and with a second StaticFiles mount on the SAME prefix serving another root with another extension list, registered before / after), against a real sandbox tree with marked files outside the root (parent directory, name-prefix sibling 'rootx'); plus relative roots in 6 spellings x 4 handlers x 5 arrangements (other mounts whose directory names differ by leading dots / slashes; another router or another mount registered while the process worked in a directory of the same layout; the root created only after the mount was registered; two groups mounting under the same prefix argument with different roots, the other one requested first) probed with all paths of <=2 tokens over 12 tokens; " +
 		"oracle: no body carries an outside marker or lists an outside directory, every 200 body is a file under the root, StaticFiles answers 200 only for allowed extensions, StaticFile only its file; non-trivial = a path containing a dot-dot in some encoding",
 	Assume: []string{"relative to the sandbox tree and the OS / file system the check runs on", "net/http's FileServer is part of the implementation under test, not of the oracle"},
 	Bounds: func(tier string) map[string]any {
